@@ -82,6 +82,32 @@ def gen_c03src():
     E.find1(r'ubQ\(\s*s\s*,\s*maxAction\s*\)\s*=\s*node\.UB\s*;', s, 'SARSOP corner overwrite')
     E.find1(r'ub\s*=\s*std::get<0>\(\s*LPInterpolation\(\s*initialBelief\s*,\s*ubQ\s*,\s*ubV\s*\)\s*\)\s*;', g, 'GapMin ub = LPInterpolation(initialBelief)')
 
+    # GapMin::makeNewPomdp: the two 1e-6 cut-offs (Props/C03Trunc.lean: `libCut_residual`, `anytimeT_sound`)
+    mk = E.find1(r'GapMin::makeNewPomdp\(const M& model.*?return std::make_tuple\(', g, 'GapMin::makeNewPomdp body').group(0)
+    gap_weight_cut = bool(re.search(r'if\s*\(\s*checkDifferentSmall\(\s*dist\[i\]\s*,\s*0\.0\s*\)\s*\)\s*m\.insert\(\s*index\s*,\s*i\s*\)\s*=\s*dist\[i\]\s*;', mk))
+    if not gap_weight_cut and not re.search(r'm\.insert\(\s*index\s*,\s*i\s*\)\s*=\s*dist\[i\]\s*;', mk):
+        raise E.ExtractError('GapMin::makeNewPomdp: how interpolation weights are stored not recognised')
+    gap_mass_cut = bool(re.search(r'auto sum = helper\.sum\(\)\s*;\s*if\s*\(\s*checkDifferentSmall\(\s*sum\s*,\s*0\.0\s*\)\s*\)', mk))
+    E.find1(r'Vector dist = std::get<1>\(\s*LPInterpolation\(\s*helper\s*,\s*ubQ\s*,\s*ubV\s*\)\s*\)\s*;', mk, 'GapMin::makeNewPomdp rows = LPInterpolation weights of the unnormalised successor')
+    E.find1(r'R\.row\(\s*model\.getS\(\)\s*\+\s*b\s*\)\s*=\s*ubV\.first\[b\]\.transpose\(\)\s*\*\s*ir\s*;', mk, 'GapMin::makeNewPomdp belief rows of R = expected reward of that belief')
+    core = flat('include/AIToolbox/Utils/Core.hpp')
+    E.find1(r'inline bool checkEqualSmall\(const double a, const double b\)\s*\{\s*return\s*\(\s*std::fabs\(a - b\)\s*<=\s*equalToleranceSmall\s*\)\s*;\s*\}', core, 'checkEqualSmall')
+    E.find1(r'inline bool checkDifferentSmall\(const double a, const double b\)\s*\{\s*return\s*!checkEqualSmall\(a,\s*b\)\s*;\s*\}', core, 'checkDifferentSmall')
+
+    # Projecter: the reward share and the possible-observation cut (Props/C03Trunc.lean `pointBackup_cut_sound`; the driver's `backupVec` links)
+    pj = flat('include/AIToolbox/POMDP/Algorithms/Utils/Projecter.hpp')
+    E.find1(r'immediateRewards_\s*/=\s*static_cast<double>\(O\)\s*;', pj, 'Projecter: reward share R/|O|')
+    E.find1(r'if\s*\(\s*!possibleObservations_\[a\]\[o\]\s*\)\s*\{\s*projections\[o\]\.emplace_back\(\s*immediateRewards_\.row\(a\)\s*,\s*a\s*,\s*VObs\(1,\s*0\)\s*\)\s*;\s*continue\s*;', pj,
+            'Projecter: impossible observation = bare reward share')
+    E.find1(r'projections\[o\]\.emplace_back\(\s*vproj\s*\*\s*discount_\s*\+\s*immediateRewards_\.row\(a\)\.transpose\(\)\s*,\s*a\s*,\s*VObs\(1,\s*i\)\s*\)\s*;', pj,
+            'Projecter: projection = discount * T (O . v) + reward share')
+    if re.search(r'if\s*\(\s*checkDifferentSmall\(\s*model_\.getObservationProbability\(s,\s*a,\s*o\)\s*,\s*0\.0\s*\)\s*\)\s*\{\s*possibleObservations_\[a\]\[o\]\s*=\s*true\s*;\s*break\s*;', pj):
+        proj_obs_cut = True         # possible = some successor with probability above equalToleranceSmall
+    elif re.search(r'if\s*\(\s*model_\.getObservationProbability\(s,\s*a,\s*o\)\s*>\s*0\.0\s*\)\s*\{\s*possibleObservations_\[a\]\[o\]\s*=\s*true\s*;\s*break\s*;', pj):
+        proj_obs_cut = False        # possible = some successor with positive probability
+    else:
+        raise E.ExtractError('Projecter::computePossibleObservations: test not recognised')
+
     p = flat(PERSEUS)
     E.find1(r'v\[0\]\[0\]\.values\.fill\(\s*minReward\s*/\s*\(\s*1\.0\s*-\s*model\.getDiscount\(\)\s*\)\s*\)\s*;', p, 'PERSEUS start')
 
@@ -97,6 +123,12 @@ def fibStartIsMax : Bool := {bb(fib_is_max)}
 def fibInnerIsMax : Bool := {bb(fib_inner_max)}
 /-- {UTILS}: bestConservativeAction leaves out (`continue`) observations of probability below 1e-6 from the query belief -/
 def consSkips : Bool := {bb(cons_skips)}
+/-- {GAPMIN} makeNewPomdp: interpolation weights `w` with `|w| <= equalToleranceSmall` are not stored -/
+def gapminWeightCut : Bool := {bb(gap_weight_cut)}
+/-- {GAPMIN} makeNewPomdp: the row of a successor whose mass is `<= equalToleranceSmall` is left empty -/
+def gapminMassCut : Bool := {bb(gap_mass_cut)}
+/-- Projecter::computePossibleObservations: an (action, observation) pair counts as possible only if some successor has probability ABOVE equalToleranceSmall (true) / above 0 (false) -/
+def projecterObsCut : Bool := {bb(proj_obs_cut)}
 /-- literal in `std::max(<clamp>, 1.0 - discount)` (same in both files) -/
 def clamp : Rat := {E.lean_rat(blind_clamp)}
 
